@@ -214,10 +214,15 @@ type vf14Case struct {
 	K2       vf14Knobs
 	Seed     uint64
 	NameKind string
+	// SrvP256: the server prefers P-256 only; for hellos that list it without a share (HelloGolang, Chrome) the
+	// handshake then runs through a HelloRetryRequest. NoECHKeys (ECH "rejected" only): the server has no ECH keys at
+	// all (a legacy front end): ECH is ignored rather than answered with retry configs.
+	SrvP256   bool
+	NoECHKeys bool
 }
 
 func (c vf14Case) String() string {
-	s := fmt.Sprintf("%s tls=%#04x ech=%s cert=%v conn1=%v", c.Ident.Name, c.Version, c.ECH, c.Cert, c.K1)
+	s := fmt.Sprintf("%s tls=%#04x ech=%s(server-p256-only=%v,no-ech-keys=%v) cert=%v conn1=%v", c.Ident.Name, c.Version, c.ECH, c.SrvP256, c.NoECHKeys, c.Cert, c.K1)
 	if c.Second {
 		s += fmt.Sprintf(" conn2=%v", c.K2)
 	}
@@ -320,6 +325,10 @@ func vf14GenCase(rt *rapid.T, idents []vf14Ident) vf14Case {
 	c.Cert.TimeKind = vf14TimeKinds[rapid.IntRange(0, len(vf14TimeKinds)-1).Draw(rt, "timeKind")]
 	c.Cert.NotBefore, c.Cert.NotAfter = vf14Validity(c.Cert.TimeKind)
 
+	if c.ECH != "none" {
+		c.SrvP256 = rapid.IntRange(0, 2).Draw(rt, "server_p256_only") == 0
+		c.NoECHKeys = c.ECH == "rejected" && rapid.IntRange(0, 2).Draw(rt, "server_without_ech_keys") == 0
+	}
 	c.K1 = vf14GenKnobs(rt, "k1", server, alt, other, c.ECH)
 	if server == "" && c.K1.ISNTV == "" {
 		c.K1.SkipVerify = true // otherwise the Config is refused before anything is sent
@@ -391,8 +400,11 @@ func vf14Run(st *vfStats, t vfFataler, c vf14Case) {
 		ech = vf14NewECH(c.Seed, c.Public)
 		if c.ECH == "accepted" {
 			scfg.EncryptedClientHelloKeys = ech.AcceptKeys
-		} else {
+		} else if !c.NoECHKeys {
 			scfg.EncryptedClientHelloKeys = ech.RejectKeys
+		}
+		if c.SrvP256 {
+			scfg.CurvePreferences = []CurveID{CurveP256}
 		}
 		// accepted: the case's certificate answers the inner name, a good certificate answers the public name.
 		// rejected: the case's certificate answers the public name (that is the one under test).
@@ -482,7 +494,11 @@ func vf14Run(st *vfStats, t vfFataler, c vf14Case) {
 		}
 		st.Class(fmt.Sprintf("conn%d-want:%s", conn, want))
 		if got == want {
-			if want == "ECHRejectionError" && !bytes.Equal(rej.RetryConfigList, append([]byte{byte(len(ech.RejectKeys[0].Config) >> 8), byte(len(ech.RejectKeys[0].Config))}, ech.RejectKeys[0].Config...)) {
+			var wantRetry []byte // (a server without ECH keys has no retry configs to send)
+			if want == "ECHRejectionError" && !c.NoECHKeys {
+				wantRetry = append([]byte{byte(len(ech.RejectKeys[0].Config) >> 8), byte(len(ech.RejectKeys[0].Config))}, ech.RejectKeys[0].Config...)
+			}
+			if want == "ECHRejectionError" && !bytes.Equal(rej.RetryConfigList, wantRetry) {
 				fail("conn %d: ECHRejectionError carries an unexpected retry list %x", conn, rej.RetryConfigList)
 			}
 			if want == "CertificateVerificationError" {
